@@ -1,4 +1,4 @@
-// VERIF: rc quick_shards=4
+// VERIF: rc quick_shards=4 fuzz=tree_histories
 // C09 - tree keeps parent/child links consistent under every operation history.
 // Stateful model-based test over a forest of heap-allocated roots; operands are chosen among ALL
 // current nodes (addressed by root index + pre-order index). Oracle: a plain recursive model and a
